@@ -6,6 +6,7 @@ from ..core import Result
 PID = "C01"
 LEVEL = "exploration"
 RULE = (
+    'One cold-started spec in six is simulated with unit_time 2 or 3 (absence lists in time units, steps and logs indexed by step). '
     'Hypothesis-generated workflows (1-8 tasks, thorough 1-12; every edge drawn from FS/SS/FF/SF; work amounts incl. 0, default progress incl. 1; 0-6 workers in 1-3 teams with skills incl. 0/missing, solo flags, fixed-ID lists, per-worker and project-wide absence lists; all nine task rules; both auto-task flags; thorough adds facilities) simulated once under the step observer. Oracle: invariant over the history of live snapshots (4 per step) and over the state logs: rank never decreases, FS/SS gate at the first non-NONE snapshot, FF/SF gate at the first FINISHED snapshot, log entry == live state modulo the absence display rule. Non-trivial = at least one non-FS edge into a non-exempt task and at least one task whose start or finish was actually held back by a predecessor; distinct by canonical spec hash.'
 )
 ASSUMPTIONS = [
@@ -16,7 +17,7 @@ TECHNIQUE = 'property-based testing (Hypothesis): generated workflows, history i
 LEVEL_TEXT = 'Generated-input search with an invariant oracle over every live snapshot of every step of every generated run; safety direction only (never too early), not a proof.'
 LEVEL_NOTE = 'Trusts the guarded step observer (live state at four phases per step) and the spec->model builder; deterministic skills; unit_time=1.'
 
-CFG = gen.Cfg(warm_modes=["morph", "graft", "append", "nolog"], warm=3, kinds=[0, 0, 1, 1, 2, 2, 3, 3], facilities=False, max_time=[40, 80], tie_rich=4, max_deps_factor=3,
+CFG = gen.Cfg(unit_time=6, warm_modes=["morph", "graft", "append", "nolog"], warm=3, kinds=[0, 0, 1, 1, 2, 2, 3, 3], facilities=False, max_time=[40, 80], tie_rich=4, max_deps_factor=3,
               min_tasks=2, max_workers=4, abs_max=12)
 
 
